@@ -23,59 +23,59 @@ theorem guards_context_ms_build : Generated.guardContextMsBuild =
      ("guard_ms_outside", ["FunctionDef"]),
      ("guard_ms_new_epoch", ["FunctionDef"]),
      ("guard_ms_new_matrix", ["FunctionDef"]),
-     ("guard_ms_growth_all", ["for (t, events_iter) in itertools.groupby(args.initial_state + args.demographic_events, operator.attrgetter('t'))", "for event in events_group", "if isinstance(event, GrowthRateChange)", "for (j, deme) in enumerate(b.data['demes'])", "if j not in joined"]),
-     ("guard_ms_growth_one", ["for (t, events_iter) in itertools.groupby(args.initial_state + args.demographic_events, operator.attrgetter('t'))", "for event in events_group", "else of if isinstance(event, GrowthRateChange)", "if isinstance(event, PopulationGrowthRateChange)"]),
-     ("guard_ms_diagonal", ["for (t, events_iter) in itertools.groupby(args.initial_state + args.demographic_events, operator.attrgetter('t'))", "for event in events_group", "else of if isinstance(event, GrowthRateChange)", "else of if isinstance(event, PopulationGrowthRateChange)", "else of if isinstance(event, SizeChange)", "else of if isinstance(event, PopulationSizeChange)", "else of if isinstance(event, MigrationRateChange)", "if isinstance(event, MigrationMatrixEntryChange)"]),
-     ("guard_ms_npop", ["for (t, events_iter) in itertools.groupby(args.initial_state + args.demographic_events, operator.attrgetter('t'))", "for event in events_group", "else of if isinstance(event, GrowthRateChange)", "else of if isinstance(event, PopulationGrowthRateChange)", "else of if isinstance(event, SizeChange)", "else of if isinstance(event, PopulationSizeChange)", "else of if isinstance(event, MigrationRateChange)", "else of if isinstance(event, MigrationMatrixEntryChange)", "if isinstance(event, MigrationMatrixChange)"]),
-     ("guard_ms_foreign", ["for (t, events_iter) in itertools.groupby(args.initial_state + args.demographic_events, operator.attrgetter('t'))", "for (j, k, p) in split_join_params", "for (o, proportion) in enumerate(lineage_movements[j])"]),
-     ("guard_ms_no_foreign", ["for (t, events_iter) in itertools.groupby(args.initial_state + args.demographic_events, operator.attrgetter('t'))", "for (j, k, p) in split_join_params"]),
-     ("guard_ms_replaced", ["for (t, events_iter) in itertools.groupby(args.initial_state + args.demographic_events, operator.attrgetter('t'))", "for (j, k, p) in split_join_params"]),
-     ("guard_ms_growing", ["for deme in b.data['demes']"]),
-     ("guard_ms_infinite", ["for deme in b.data['demes']", "if growth_rate != 0"])] := by decide +kernel
+     ("guard_ms_growth_all", ["for (v16, v17) in itertools.groupby(args.initial_state + args.demographic_events, operator.attrgetter('t'))", "for v23 in v19", "if isinstance(v23, GrowthRateChange)", "for (v5, v25) in enumerate(v4.data['demes'])", "if v5 not in v3"]),
+     ("guard_ms_growth_one", ["for (v16, v17) in itertools.groupby(args.initial_state + args.demographic_events, operator.attrgetter('t'))", "for v23 in v19", "else of if isinstance(v23, GrowthRateChange)", "if isinstance(v23, PopulationGrowthRateChange)"]),
+     ("guard_ms_diagonal", ["for (v16, v17) in itertools.groupby(args.initial_state + args.demographic_events, operator.attrgetter('t'))", "for v23 in v19", "else of if isinstance(v23, GrowthRateChange)", "else of if isinstance(v23, PopulationGrowthRateChange)", "else of if isinstance(v23, SizeChange)", "else of if isinstance(v23, PopulationSizeChange)", "else of if isinstance(v23, MigrationRateChange)", "if isinstance(v23, MigrationMatrixEntryChange)"]),
+     ("guard_ms_npop", ["for (v16, v17) in itertools.groupby(args.initial_state + args.demographic_events, operator.attrgetter('t'))", "for v23 in v19", "else of if isinstance(v23, GrowthRateChange)", "else of if isinstance(v23, PopulationGrowthRateChange)", "else of if isinstance(v23, SizeChange)", "else of if isinstance(v23, PopulationSizeChange)", "else of if isinstance(v23, MigrationRateChange)", "else of if isinstance(v23, MigrationMatrixEntryChange)", "if isinstance(v23, MigrationMatrixChange)"]),
+     ("guard_ms_foreign", ["for (v16, v17) in itertools.groupby(args.initial_state + args.demographic_events, operator.attrgetter('t'))", "for (v5, v32, v46) in v22", "for (v49, v50) in enumerate(v21[v5])"]),
+     ("guard_ms_no_foreign", ["for (v16, v17) in itertools.groupby(args.initial_state + args.demographic_events, operator.attrgetter('t'))", "for (v5, v32, v46) in v22"]),
+     ("guard_ms_replaced", ["for (v16, v17) in itertools.groupby(args.initial_state + args.demographic_events, operator.attrgetter('t'))", "for (v5, v32, v46) in v22"]),
+     ("guard_ms_growing", ["for v25 in v4.data['demes']"]),
+     ("guard_ms_infinite", ["for v25 in v4.data['demes']", "if v24 != 0"])] := by decide +kernel
 
 theorem guards_tests_ms_build : Generated.guardTestsMsBuild =
     [
      (0, "args.structure is not None", false),
-     (1, "num_demes > 1", false),
-     (2, "population_id < 1 or population_id > num_demes", true),
-     (3, "pid in joined", true),
-     (4, "not start_time > time >= end_time", true),
-     (5, "time > end_time", false),
-     (6, "time > mm_end_times[0]", false),
-     (7, "isinstance(event, GrowthRateChange)", false),
-     (8, "j not in joined", false),
-     (9, "current_growth_rate != growth_rate", false),
-     (10, "isinstance(event, PopulationGrowthRateChange)", false),
-     (11, "current_growth_rate != growth_rate", false),
-     (12, "isinstance(event, SizeChange)", false),
-     (13, "j not in joined", false),
-     (14, "current_growth_rate != 0 or current_epoch['end_size'] != size", false),
-     (15, "isinstance(event, PopulationSizeChange)", false),
-     (16, "current_growth_rate != 0 or current_epoch['end_size'] != size", false),
-     (17, "'-en' in event.option_strings", false),
-     (18, "isinstance(event, MigrationRateChange)", false),
-     (19, "j not in joined", false),
-     (20, "j != k and k not in joined", false),
-     (21, "isinstance(event, MigrationMatrixEntryChange)", false),
-     (22, "pid_i == pid_j", true),
-     (23, "isinstance(event, MigrationMatrixChange)", false),
-     (24, "'-ma' in event.option_strings", false),
-     (25, "event.npop != num_demes", true),
-     (26, "j != k", false),
-     (27, "isinstance(event, Join)", false),
-     (28, "h == pop_i", false),
-     (29, "k != pop_i", false),
-     (30, "isinstance(event, Split)", false),
-     (31, "j != o and proportion > 0", false),
-     (32, "len(ancestors) == 0", false),
-     (33, "p_jj == 0", false),
-     (34, "growth_rate != 0", false),
-     (35, "math.isinf(start_time)", true)] := by decide +kernel
+     (1, "v0 > 1", false),
+     (2, "p0 < 1 or p0 > v0", true),
+     (3, "v7 in v3", true),
+     (4, "not v9 > p2 >= v10", true),
+     (5, "p2 > v10", false),
+     (6, "p3 > v2[0]", false),
+     (7, "isinstance(v23, GrowthRateChange)", false),
+     (8, "v5 not in v3", false),
+     (9, "v27 != v24", false),
+     (10, "isinstance(v23, PopulationGrowthRateChange)", false),
+     (11, "v27 != v24", false),
+     (12, "isinstance(v23, SizeChange)", false),
+     (13, "v5 not in v3", false),
+     (14, "v27 != 0 or v26['end_size'] != v30", false),
+     (15, "isinstance(v23, PopulationSizeChange)", false),
+     (16, "v27 != 0 or v26['end_size'] != v30", false),
+     (17, "'-en' in v23.option_strings", false),
+     (18, "isinstance(v23, MigrationRateChange)", false),
+     (19, "v5 not in v3", false),
+     (20, "v5 != v32 and v32 not in v3", false),
+     (21, "isinstance(v23, MigrationMatrixEntryChange)", false),
+     (22, "v33 == v34", true),
+     (23, "isinstance(v23, MigrationMatrixChange)", false),
+     (24, "'-ma' in v23.option_strings", false),
+     (25, "v23.npop != v0", true),
+     (26, "v5 != v32", false),
+     (27, "isinstance(v23, Join)", false),
+     (28, "v41 == v36", false),
+     (29, "v32 != v36", false),
+     (30, "isinstance(v23, Split)", false),
+     (31, "v5 != v49 and v50 > 0", false),
+     (32, "len(v47) == 0", false),
+     (33, "v51 == 0", false),
+     (34, "v24 != 0", false),
+     (35, "math.isinf(v52)", true)] := by decide +kernel
 
 /-! ### `convert_population_id` -/
 
 theorem guard_ms_bad_id_meaning (i : Int) (n : Nat) :
-    Generated.guard_ms_bad_id (population_id := .fin (i : Q)) (num_demes := .fin (n : Q))
+    Generated.guard_ms_bad_id (p0 := .fin (i : Q)) (v0 := .fin (n : Q))
       = (decide (i < 1) || decide (i > (n : Int))) := by
   unfold Generated.guard_ms_bad_id
   have h1 : ((i : Q) < 1) ↔ i < 1 := by exact_mod_cast Iff.rfl
@@ -83,13 +83,13 @@ theorem guard_ms_bad_id_meaning (i : Int) (n : Nat) :
   simp [lt_fin_fin, h1, h2]
 
 theorem guard_ms_joined_id_meaning (joined : List Nat) (pid : Nat) :
-    Generated.guard_ms_joined_id (joined := joined) (pid := pid) = joined.contains pid := by
+    Generated.guard_ms_joined_id (v3 := joined) (v7 := pid) = joined.contains pid := by
   unfold Generated.guard_ms_joined_id
   first | rfl | simp
 
 theorem guards_tie_convert_population_id : convertPopulationId = convertPopulationIdWith
-    (fun i n => Generated.guard_ms_bad_id (population_id := i) (num_demes := n))
-    (fun js p => Generated.guard_ms_joined_id (joined := js) (pid := p)) := by
+    (fun i n => Generated.guard_ms_bad_id (p0 := i) (v0 := n))
+    (fun js p => Generated.guard_ms_joined_id (v3 := js) (v7 := p)) := by
   funext s i
   unfold convertPopulationId convertPopulationIdWith
   simp only [guard_ms_bad_id_meaning, guard_ms_joined_id_meaning]
@@ -98,31 +98,31 @@ theorem guards_tie_convert_population_id : convertPopulationId = convertPopulati
 /-! ### `epoch_resolve`, `migration_matrix_at` -/
 
 theorem guard_ms_outside_meaning (time : Q) (start : ETime) (e : Q) :
-    Generated.guard_ms_outside (time := .fin time) (deme_start_time := Num.ofETime start) (epoch_end_time := .fin e)
+    Generated.guard_ms_outside (p2 := .fin time) (p1_start_time := Num.ofETime start) (v8_end_time := .fin e)
       = !(decide (ETime.fin time < start) && decide (e ≤ time)) := by
   unfold Generated.guard_ms_outside
   cases start <;> guard_close
 
 theorem guard_ms_new_epoch_meaning (time e : Q) :
-    Generated.guard_ms_new_epoch (time := .fin time) (epoch_end_time := .fin e) = decide (e < time) := by
+    Generated.guard_ms_new_epoch (p2 := .fin time) (v8_end_time := .fin e) = decide (e < time) := by
   unfold Generated.guard_ms_new_epoch
   guard_close
 
 theorem guards_tie_epoch_resolve : epochResolve = epochResolveWith
-    (fun t s e => Generated.guard_ms_outside (time := t) (deme_start_time := s) (epoch_end_time := e))
-    (fun t e => Generated.guard_ms_new_epoch (time := t) (epoch_end_time := e)) := by
+    (fun t s e => Generated.guard_ms_outside (p2 := t) (p1_start_time := s) (v8_end_time := e))
+    (fun t e => Generated.guard_ms_new_epoch (p2 := t) (v8_end_time := e)) := by
   funext d time
   unfold epochResolve epochResolveWith
   simp only [guard_ms_outside_meaning, guard_ms_new_epoch_meaning, decide_eq_true_eq]
   first | done | rfl
 
 theorem guard_ms_new_matrix_meaning (time e : Q) :
-    Generated.guard_ms_new_matrix (time := .fin time) (mm_end_times_0 := .fin e) = decide (e < time) := by
+    Generated.guard_ms_new_matrix (p3 := .fin time) (v2_0 := .fin e) = decide (e < time) := by
   unfold Generated.guard_ms_new_matrix
   guard_close
 
 theorem guards_tie_migration_matrix_at : migrationMatrixAt = migrationMatrixAtWith
-    (fun t e => Generated.guard_ms_new_matrix (time := t) (mm_end_times_0 := e)) := by
+    (fun t e => Generated.guard_ms_new_matrix (p3 := t) (v2_0 := e)) := by
   funext s time
   unfold migrationMatrixAt migrationMatrixAtWith
   simp only [guard_ms_new_matrix_meaning, decide_eq_true_eq]
@@ -131,32 +131,32 @@ theorem guards_tie_migration_matrix_at : migrationMatrixAt = migrationMatrixAtWi
 /-! ### the event loop: `-eG`, `-eg`, `-em`, `-ema` -/
 
 theorem guard_ms_growth_all_meaning (cur new : Q) :
-    Generated.guard_ms_growth_all (current_growth_rate := .fin cur) (growth_rate := .fin new) = decide (cur ≠ new) := by
+    Generated.guard_ms_growth_all (v27 := .fin cur) (v24 := .fin new) = decide (cur ≠ new) := by
   unfold Generated.guard_ms_growth_all
   guard_close
 
 theorem guard_ms_growth_one_meaning (cur new : Q) :
-    Generated.guard_ms_growth_one (current_growth_rate := .fin cur) (growth_rate := .fin new) = decide (cur ≠ new) := by
+    Generated.guard_ms_growth_one (v27 := .fin cur) (v24 := .fin new) = decide (cur ≠ new) := by
   unfold Generated.guard_ms_growth_one
   guard_close
 
 theorem guard_ms_diagonal_meaning (i j : Nat) :
-    Generated.guard_ms_diagonal (pid_i := .fin (i : Q)) (pid_j := .fin (j : Q)) = decide (i = j) := by
+    Generated.guard_ms_diagonal (v33 := .fin (i : Q)) (v34 := .fin (j : Q)) = decide (i = j) := by
   unfold Generated.guard_ms_diagonal
   have h : ((i : Q) = (j : Q)) ↔ i = j := by exact_mod_cast Iff.rfl
   simp [eqIEEE_fin_fin, h]
 
 theorem guard_ms_npop_meaning (npop : Int) (n : Nat) :
-    Generated.guard_ms_npop (event_npop := .fin (npop : Q)) (num_demes := .fin (n : Q)) = decide (npop ≠ (n : Int)) := by
+    Generated.guard_ms_npop (v23_npop := .fin (npop : Q)) (v0 := .fin (n : Q)) = decide (npop ≠ (n : Int)) := by
   unfold Generated.guard_ms_npop
   have h : ((npop : Q) = (n : Q)) ↔ npop = (n : Int) := by exact_mod_cast Iff.rfl
   simp [eqIEEE_fin_fin, h]
 
 theorem guards_tie_step_event : stepEvent = stepEventWith
-    (fun c n => Generated.guard_ms_growth_all (current_growth_rate := c) (growth_rate := n))
-    (fun c n => Generated.guard_ms_growth_one (current_growth_rate := c) (growth_rate := n))
-    (fun i j => Generated.guard_ms_diagonal (pid_i := i) (pid_j := j))
-    (fun p n => Generated.guard_ms_npop (event_npop := p) (num_demes := n)) := by
+    (fun c n => Generated.guard_ms_growth_all (v27 := c) (v24 := n))
+    (fun c n => Generated.guard_ms_growth_one (v27 := c) (v24 := n))
+    (fun i j => Generated.guard_ms_diagonal (v33 := i) (v34 := j))
+    (fun p n => Generated.guard_ms_npop (v23_npop := p) (v0 := n)) := by
   funext N0 time sg ev
   obtain ⟨s, g⟩ := sg
   cases ev <;>
@@ -167,26 +167,26 @@ theorem guards_tie_step_event : stepEvent = stepEventWith
 /-! ### after a time group: ancestry or pulses -/
 
 theorem guard_ms_foreign_meaning (j o : Nat) (p : Q) :
-    Generated.guard_ms_foreign (j := .fin (j : Q)) (o := .fin (o : Q)) (proportion := .fin p)
+    Generated.guard_ms_foreign (v5 := .fin (j : Q)) (v49 := .fin (o : Q)) (v50 := .fin p)
       = (decide (j ≠ o) && decide (p > 0)) := by
   unfold Generated.guard_ms_foreign
   have h : ((j : Q) = (o : Q)) ↔ j = o := by exact_mod_cast Iff.rfl
   simp [eqIEEE_fin_fin, lt_fin_fin, h]
 
 theorem guard_ms_no_foreign_meaning {α} (xs : List α) :
-    Generated.guard_ms_no_foreign (len_ancestors := xs.length) = xs.isEmpty := by
+    Generated.guard_ms_no_foreign (len_v47 := xs.length) = xs.isEmpty := by
   unfold Generated.guard_ms_no_foreign
   cases xs <;> simp
 
 theorem guard_ms_replaced_meaning (x : Q) :
-    Generated.guard_ms_replaced (lineage_movements_j_j := .fin x) = decide (x = 0) := by
+    Generated.guard_ms_replaced (v21_v5_v5 := .fin x) = decide (x = 0) := by
   unfold Generated.guard_ms_replaced
   guard_close
 
 theorem guards_tie_apply_params : applyParams = applyParamsWith
-    (fun j o p => Generated.guard_ms_foreign (j := j) (o := o) (proportion := p))
-    (fun n => Generated.guard_ms_no_foreign (len_ancestors := n))
-    (fun x => Generated.guard_ms_replaced (lineage_movements_j_j := x)) := by
+    (fun j o p => Generated.guard_ms_foreign (v5 := j) (v49 := o) (v50 := p))
+    (fun n => Generated.guard_ms_no_foreign (len_v47 := n))
+    (fun x => Generated.guard_ms_replaced (v21_v5_v5 := x)) := by
   funext time s g
   unfold applyParams applyParamsWith
   simp only [guard_ms_foreign_meaning, guard_ms_no_foreign_meaning, guard_ms_replaced_meaning, decide_eq_true_eq]
@@ -195,18 +195,18 @@ theorem guards_tie_apply_params : applyParams = applyParamsWith
 /-! ### the oldest epochs -/
 
 theorem guard_ms_growing_meaning (x : Q) :
-    Generated.guard_ms_growing (growth_rate := .fin x) = decide (x ≠ 0) := by
+    Generated.guard_ms_growing (v24 := .fin x) = decide (x ≠ 0) := by
   unfold Generated.guard_ms_growing
   guard_close
 
 theorem guard_ms_infinite_meaning (t : ETime) :
-    Generated.guard_ms_infinite (start_time := Num.ofETime t) = t.isInf := by
+    Generated.guard_ms_infinite (v52 := Num.ofETime t) = t.isInf := by
   unfold Generated.guard_ms_infinite
   cases t <;> guard_close
 
 theorem guards_tie_finalise_growth : finaliseGrowth = finaliseGrowthWith
-    (fun x => Generated.guard_ms_growing (growth_rate := x))
-    (fun t => Generated.guard_ms_infinite (start_time := t)) := by
+    (fun x => Generated.guard_ms_growing (v24 := x))
+    (fun t => Generated.guard_ms_infinite (v52 := t)) := by
   funext d
   unfold finaliseGrowth finaliseGrowthWith
   simp only [guard_ms_growing_meaning, guard_ms_infinite_meaning, decide_eq_true_eq]
